@@ -51,6 +51,7 @@ theorem from_to_bytes (hm : IsModulus p m) (xs : List Poly) (h : ∀ a ∈ xs, R
     rw [PrimeF.fromBytes_enc _ hbl ns hr]
     show Except.ok _ = _
     congr 1
+    show List.map (fun (v : ℕ) => ofInt p m (v : ℤ)) (List.map (toInt p) xs) = xs
     rw [List.map_map]
     have : ∀ a ∈ xs, ((fun (v : ℕ) => ofInt p m (v : ℤ)) ∘ toInt p) a = id a :=
       fun a ha => ofInt_toInt hm (h a ha)
@@ -86,6 +87,7 @@ theorem from_to_bytes (xs : List ℕ) (h : ∀ a ∈ xs, BRed m a) :
     rw [PrimeF.fromBytes_enc _ hbl xs hr]
     show Except.ok _ = _
     congr 1
+    show List.map (fun (v : ℕ) => ofInt m (v : ℤ)) xs = xs
     have : ∀ a ∈ xs, (fun (v : ℕ) => ofInt m (v : ℤ)) a = id a := fun a ha => ofInt_of_bred (h a ha)
     rw [List.map_congr_left this, List.map_id]
 
